@@ -90,6 +90,7 @@ type caseIn struct {
 	JointEnabled   bool    `json:"joint_enabled"`
 	SameIDs        bool    `json:"same_ids"` // peer ids equal store ids (as PD's unit tests build regions)
 	MaxWaiting     int     `json:"max_waiting"`
+	AllocBase      int     `json:"alloc_base,omitempty"` // ids the mock allocator hands out start above this
 	Events         []event `json:"events"`
 	Gen            string  `json:"gen,omitempty"`
 }
@@ -125,6 +126,11 @@ func newWorld(c *caseIn, rec *tikvsim.Recorder) *world {
 		tc.AddLabelsStore(s, 1, map[string]string{})
 		tc.SetStoreLimit(s, storelimit.AddPeer, 6e7)
 		tc.SetStoreLimit(s, storelimit.RemovePeer, 6e7)
+	}
+	if c.AllocBase > 0 {
+		for i := 0; i < c.AllocBase; i++ {
+			_, _ = tc.AllocID() // allocated peer ids start above the store ids
+		}
 	}
 	rec.Collect() // nothing of an earlier case may leak into this one
 	return &world{c: c, tc: tc, oc: schedule.NewOperatorController(ctx, tc, rec.HB), rec: rec, cancel: cancel,
@@ -925,6 +931,9 @@ func main() {
 		for k := 0; k < *n; k++ {
 			r := master.Fork(uint64(k))
 			c := &caseIn{MaxWaiting: 5, SameIDs: r.Pct(15)}
+			if r.Pct(60) {
+				c.AllocBase = 100
+			}
 			switch r.Pick(55, 15, 30) {
 			case 0:
 				c.JointSupported, c.JointEnabled = true, true
